@@ -1,6 +1,11 @@
 package c17
 
-import "wzverif/internal/gen"
+import (
+	"strconv"
+
+	"wzverif/internal/gen"
+	"wzverif/internal/kit"
+)
 
 // fixedCases: hand-written histories every run executes first.
 func fixedCases() []Case {
@@ -20,7 +25,37 @@ func fixedCases() []Case {
 	// three header / footer parts, a picture and a note of its own, a picture placeholder
 	roomy := &DocSpec{Elems: []DocElem{{Runs: []DocRun{{T: "Report {{title}}"}}}, {Runs: []DocRun{{T: "{{#image logo}}"}}}, {Runs: []DocRun{{T: "end"}}}},
 		HasHeader: true, Header: "header {{title}}", HasFooter: true, Footer: "footer", HF: []DocHF{{Type: "first", Text: "first header"}}, Image: &gif, Footnote: true, ListItems: 1}
+	// list items that carry the caller's own slice types; a template that loops over them and one that prints them
+	typedItems := Data{Vars: map[string]Val{"title": s("T"), "memo": {T: "as", L: []Val{s("b"), s("a")}}}, Lists: map[string][]Val{"items": {
+		{T: "m", M: map[string]Val{"label": s("G1"), "parts": {T: "as", L: []Val{s("a"), s("b")}}, "subs": {T: "am", L: []Val{{T: "m", M: map[string]Val{"sname": s("x")}}, {T: "m", M: map[string]Val{"sname": s("y")}}}}}},
+		{T: "m", M: map[string]Val{"label": s("G2"), "parts": {T: "as", L: []Val{s("c")}}, "subs": {T: "a", L: []Val{{T: "m", M: map[string]Val{"sname": s("z")}}}}, "amount": {T: "ai", L: []Val{{T: "i", S: "3"}, {T: "i", S: "1"}}}}},
+	}}}
+	nestedSrc := "{{title}} {{memo}}\n{{#each items}}{{label}}:{{#each parts}}<{{this}}>{{/each}}{{#each subs}}({{sname}}){{/each}} {{amount}};\n{{/each}}"
+	flatSrc := "{{#each items}}{{label}}={{parts}}/{{subs}}/{{amount}};{{/each}}"
+	derivedDoc := &DocSpec{Elems: []DocElem{{Runs: []DocRun{{T: "{{extends \"t0\"}}"}}}, {Runs: []DocRun{{T: "{{#block \"header\"}}DOC1 {{qty}}{{/block}}"}}}, {Runs: []DocRun{{T: "tail {{customer}}"}}}}}
+	// more names alive on one engine than any power of two up to 64, b1 removed while b10.. stay
+	var many []Op
+	if !kit.RaceMode() {
+		for i := 0; i < 67; i++ {
+			many = append(many, Op{K: "load", Name: "b" + strconv.Itoa(i), Src: "B" + strconv.Itoa(i) + " {{title}}"})
+		}
+		many = append(many, Op{K: "remove", Name: "b1"}, Op{K: "render", Name: "b1"})
+		for i := 0; i < 67; i += 2 {
+			many = append(many, Op{K: "render", Name: "b" + strconv.Itoa(i), Entry: i / 2 % 2})
+		}
+		many = append(many, Op{K: "render", Name: "b11"}, Op{K: "render", Name: "b19"})
+	}
 	return []Case{
+		{Datas: []Data{typedItems}, Ops: []Op{{K: "load", Name: "t0", Src: flatSrc}, {K: "load", Name: "t1", Src: nestedSrc},
+			{K: "render", Name: "t0"}, {K: "render", Name: "t1"}, {K: "render", Name: "t0"}, {K: "render", Name: "t1", Entry: 1}},
+			Conc: &Conc{Procs: 4, Workers: [][]Op{{{K: "render", Name: "t1"}, {K: "render", Name: "t0"}}, {{K: "render", Name: "t1"}}, {{K: "render", Name: "t0"}, {K: "render", Name: "t1"}}}}},
+		// a derived template loaded from a document, alone and while other goroutines load and remove other names
+		{Datas: []Data{data}, Ops: []Op{{K: "load", Name: "t0", Src: base}, {K: "loaddoc", Name: "t1", Doc: derivedDoc}, {K: "render", Name: "t1"}, {K: "render", Name: "t0"},
+			{K: "load", Name: "m1", Src: "one {{title}}"}, {K: "load", Name: "m3", Src: "three {{title}}"}},
+			Conc: &Conc{Procs: 4, Workers: [][]Op{{{K: "render", Name: "t1"}, {K: "render", Name: "t0"}}, {{K: "render", Name: "t1", Entry: 1}},
+				{{K: "loaddoc", Name: "t2", Doc: derivedDoc}, {K: "loaddoc", Name: "t3", Doc: derivedDoc}, {K: "loaddoc", Name: "t4", Doc: derivedDoc}},
+				{{K: "load", Name: "m0", Src: "x {{title}}"}, {K: "remove", Name: "m1"}, {K: "load", Name: "m2", Src: "y"}, {K: "remove", Name: "m3"}}}}},
+		{Datas: []Data{data}, Ops: many},
 		// one document template rendered with pictures of three formats in a row; the caller keeps every result and
 		// goes on working with them
 		{Datas: []Data{pic(png, "one"), pic(jpg, "two"), pic(gif, "three")}, Ops: []Op{{K: "loaddoc", Name: "t0", Doc: roomy},
